@@ -6,7 +6,7 @@
 cd "$(dirname "$0")/.."
 pre=$1
 S=/dev/shm/blsim-sens-$$
-B=/dev/shm/blsim-sens-build
+B=/dev/shm/blsim-sens-build-$$   # one build directory per invocation: two invocations must never swap binaries
 mkdir -p $B
 list=$(ls mutants/${pre}*.diff 2>/dev/null)
 [ -n "$ALL" ] && list="$list $(ls seeded/${pre}*/patch.diff 2>/dev/null)"
@@ -29,5 +29,5 @@ for patch in $list; do
   echo "$name prop=$prop tests(pass/fail)=$tests check_rc=$rc first_signature=$sig"
   [ $rc -ne 1 ] && fail=1
 done
-rm -rf $S
+rm -rf $S $B
 exit $fail
